@@ -1170,7 +1170,10 @@ def histories(run: Run, W: World, G: TyGen):
             model, spec, q, r = e.split('/')
             st.count('history:judgement' + (':after-partial' if seen_partial else '') + (':derived-item' if op[2] else ''))
             case = {'source': src, 'history': [describe_op(o) for o in ops[:k + 1]], 'op': describe_op(op)}
-            tags = []
+            # F18q (partial application typed by the first k parameters) is repaired on branch fix-c18-2; until that
+            # commit is in the reference tree a wrong answer on an item that descends from a non-prefix mask is the
+            # known finding (the model and the spec both use the parameters at the placeholders)
+            tags = ['F18q'] if q == '1' else []
             if r == '1':
                 # aliasing of the argument list of an inline function (finding F18r): the model of the typing
                 # is not claimed for this item; a wrong answer is the finding
@@ -1181,6 +1184,10 @@ def histories(run: Run, W: World, G: TyGen):
                 continue
             if spec == '-':
                 spec = None
+            if spec is None and q == '1':
+                # function-typed parameter (no spec) on an item of the F18q region: not comparable until fix-c18-2 is in
+                st.count('history:parameter-judgement-in-F18q-region(skipped)')
+                continue
             if got[k] != model or (spec is not None and got[k] != spec):
                 run.disagree(Disagreement(case, got[k], model, spec, what='history-judgement',
                                           site='XPathFunction.match_function_test', tags=tags))
@@ -1200,7 +1207,7 @@ def histories(run: Run, W: World, G: TyGen):
             st.count('history:single-expression')
             for r, k in zip(res, idx):
                 model, spec, q, fr = entries[k].split('/')
-                tags = []
+                tags = ['F18q'] if q == '1' else []
                 if fr == '1':
                     if r != spec:
                         run.disagree(Disagreement({'expression': expr, 'judgement': describe_op(ops[k])}, r, None, spec,
@@ -1514,6 +1521,21 @@ def fixed_judgements(W: World):
         for ret in (star, a('xs:integer', '?'), a('xs:integer')):
             for item, t in (m_str, m_int, arr):
                 out.append((('F', [a(key)], ret), ([item], '1 ' + t), 0))
+    # kind tests with a type argument against every node of the two documents (no schema is bound)
+    names = L.atom_names
+    tas = ['untyped', 'anyType', 'anySimple', ('a', ix('xs:untypedAtomic')), ('a', ix('xs:anyAtomicType')),
+           ('a', ix('xs:string')), ('a', ix('xs:integer'))]
+    k = 0
+    for node, nt_tok in W.nodes:
+        parts = nt_tok.split(' ')
+        own = int(parts[2]) or 1
+        for kind in 'ea':
+            for nt in ('*', own, own % 4 + 1):
+                for ta in tas:
+                    for opt in ((False, True) if kind == 'e' and ta == 'untyped' else (False,)):
+                        k += 1
+                        out.append((('L', ('KT', kind, nt, ta, opt), '1?*+'[k % 4] if k % 5 == 0 else '1'),
+                                    ([node], '1 ' + nt_tok), k % 2))
     return out
 
 
